@@ -84,9 +84,9 @@ def harness_ir(d, harness_c, defs=(), name=None):
     return out
 
 
-def native_lib(d, san=False, opt='-O1'):
+def native_lib(d, san=False, opt='-O1', draws=False):
     """static native library of the tree (gcc + nasm), release flags; optionally ASan/UBSan"""
-    tag = 'nat-san' if san else 'nat'
+    tag = ('nat-san' if san else 'nat') + ('-draws' if draws else '')
     out = os.path.join(d, tag, 'libcimba.a')
     if os.path.exists(out):
         return out
@@ -99,6 +99,15 @@ def native_lib(d, san=False, opt='-O1'):
     for src in lib_sources():
         o = os.path.join(d, tag, os.path.basename(src)[:-2] + '.o')
         objs.append(o)
+        if draws and os.path.basename(src) == 'cmb_random.c':
+            # replay of symbolic raw draws: the real generator is renamed, every caller (also inside this unit)
+            # goes through an external cmb_random_sfc64 supplied by the replay runtime
+            txt = open(src).read()
+            assert 'uint64_t cmb_random_sfc64(void)\n{' in txt
+            txt = txt.replace('uint64_t cmb_random_sfc64(void)\n{', 'uint64_t cmb_random_sfc64_real(void)\n{', 1)
+            src = os.path.join(d, tag, 'cmb_random_draws.c')
+            with open(src, 'w') as f:
+                f.write(txt)
         procs.append(subprocess.Popen(['gcc'] + flags + ['-c', '-o', o, src], stdout=subprocess.PIPE, stderr=subprocess.STDOUT, text=True))
     for p in procs:
         o_, _ = p.communicate()
@@ -132,13 +141,13 @@ def native_lib(d, san=False, opt='-O1'):
     return out
 
 
-def native_harness(d, harness_c, defs=(), san=False, name=None):
+def native_harness(d, harness_c, defs=(), san=False, name=None, draws=False):
     name = name or os.path.basename(harness_c)[:-2] + ('.' + hashlib.md5(' '.join(defs).encode()).hexdigest()[:6] if defs else '')
-    out = os.path.join(d, name + ('.san' if san else '') + '.replay')
+    out = os.path.join(d, name + ('.san' if san else '') + ('.draws' if draws else '') + '.replay')
     if os.path.exists(out):
         return out
-    lib = native_lib(d, san)
-    flags = ['-O1', '-g', '-DSYM_NATIVE=1', '-D' + GUARD] + RELEASE_FLAGS + incflags(d) + ['-D' + x for x in defs]
+    lib = native_lib(d, san, draws=draws)
+    flags = ['-O1', '-g', '-DSYM_NATIVE=1', '-D' + GUARD] + RELEASE_FLAGS + incflags(d) + ['-D' + x for x in defs] + (['-DSYM_DRAWS=1'] if draws else [])
     if san:
         flags += ['-fsanitize=address,undefined', '-fno-sanitize-recover=undefined']
     sh(['gcc'] + flags + ['-rdynamic', '-o', out, harness_c, VERIF + '/harness/sym_native.c', '-Wl,--whole-archive', lib, '-Wl,--no-whole-archive', '-lm', '-lpthread', '-ldl'])
